@@ -13,6 +13,7 @@ EXPLANATION = ("Sufficient conditions for exactly-once destruction under every i
                "conversion suppresses the unique handle's Drop (ManuallyDrop) and OgreUnique is neither Clone nor Copy; (R14.6) the pool's dealloc_id -- the only "
                "thing the last handle's drop calls -- destroys the payload strictly before the slot re-enters the free list. (R14.7) the safe constructors allocate once, run the setter on the allocated reference and wrap exactly the allocated id (new_with = new_with_clones::<1>); references_count() answers a load of the counter.")
 EXPLANATION += " (R14.9) the constructors (OgreArc::new_with / new_with_clones, OgreUnique::new, the pool's alloc_with*) invoke the setter they were given on every path that answers a handle: every handle dereferences to the value written at creation (shared with C01 R01.9); R14.6 inherits R13.1's payload-type and needs_drop conditions."
+EXPLANATION += ' R14.6 also requires dealloc_ref (what OgreUnique::drop calls) to release through dealloc_id.'
 ASSUMPTIONS = ["the count equals the number of live handles given R14.3 and that unsafe raw_copy/increment_references are used as paired in R03.4",
                "DerefMut on a shared handle (safe mutation of shared data) is outside the statement"]
 
